@@ -4,22 +4,19 @@
 From Coq Require Import ZArith List Bool Lia.
 From EC Require Import Lib.Outcome Lib.U64 Lib.ListW Model.Msgs Model.Replica Model.ReplicaRun Model.Protocol
   Model.ProtocolSync Proofs.ProtocolRefinesExec Proofs.ProtocolRefinesExample
-  Proofs.ProtocolLive Proofs.ProtocolLiveInv Proofs.ProtocolLiveExample Proofs.ProtocolLiveCatch.
+  Proofs.ProtocolLive Proofs.ProtocolLiveInv Proofs.ProtocolLiveExample Proofs.ProtocolLiveCatch
+  Proofs.ProtocolLiveNoStop.
 Import ListNotations.
 Open Scope Z_scope.
 
 Definition height (s : gstate) (k : Z) : Z := r_store_next (n_live (g_node s k)).
-(* arithmetic headroom: no view or block number on the network or in a node is within B of
-   2^64 (view.next() / number.next() panic on overflow with checks on: known finding) *)
-Definition cmsg_view (x : cmsg) : Z :=
-  match x with
-  | MProposal _ j | MNewView j => match j with JCommit q => vnum (cview (qmsg q)) | JTimeout t => vnum (tqview t) end
-  | MCommit c => vnum (cview c)
-  | MTimeout t => vnum (tview t)
-  end.
+(* arithmetic headroom: no durable view (offset by the first block number, which bounds the
+   block numbers of all verifying certificates) and no view number of a message on the network
+   is within B of 2^64 (view.next() / number.next() panic on overflow with checks on: known
+   finding; handlers compute the successor of a message's view before verifying it) *)
 Definition headroom (P : params) (s : gstate) (B : Z) : Prop :=
-  (forall k, honestb P k = true -> hview s k + B < U64 /\ height s k + B < U64) /\
-  (forall m, In m (g_soup s) -> cmsg_view (m_msg m) + B < U64).
+  (forall k, honestb P k = true -> p_first P + dview s k + B < U64) /\
+  (forall m, In m (g_soup s) -> msg_view (m_msg m) + B < U64).
 
 (* (b), complete form *)
 Definition C06_catch_up (R : nat) : Prop :=
@@ -80,7 +77,7 @@ Definition C06_full : Prop :=
   forall P pay nbyz, params_ok P -> env_ok P pay -> forall s, preach P s ->
   (forall V, byz_run P V nbyz) ->
   exists R, forall s', adv_suffix P pay R s s' ->
-    (forall m, In m (g_soup s') -> cmsg_view (m_msg m) + 2 < U64) ->
+    (forall m, In m (g_soup s') -> msg_view (m_msg m) + 2 < U64) ->
     forall k, honestb P k = true -> height s k < height s' k.
 
 (* ================================================================== *)
@@ -102,9 +99,9 @@ Proof.
   assert (Hhead : headroom ex_P6 (ginit ex_P6) (Z.of_nat 4 + 2)).
   { split.
     - intros k Hk. apply ex_P6_hon in Hk.
-      repeat (destruct Hk as [<-|Hk]; [vm_compute; split; reflexivity|]). destruct Hk.
+      repeat (destruct Hk as [<-|Hk]; [vm_compute; reflexivity|]). destruct Hk.
     - intros m Hin.
-      assert (Hb : forallb (fun m => cmsg_view (m_msg m) + (Z.of_nat 4 + 2) <? U64) (g_soup (ginit ex_P6)) = true)
+      assert (Hb : forallb (fun m => msg_view (m_msg m) + (Z.of_nat 4 + 2) <? U64) (g_soup (ginit ex_P6)) = true)
         by (vm_compute; reflexivity).
       apply Z.ltb_lt. exact (Forall_forallb _ _ Hb m Hin). }
   assert (Hal : aligned ex_P6 (ginit ex_P6) 0).
@@ -130,4 +127,43 @@ Lemma ex_catch_up_hyps :
 Proof.
   cbv zeta. split; [|split]; intros k Hk; apply ex_P_hon in Hk;
     repeat (destruct Hk as [<-|Hk]; [vm_compute; try split; reflexivity|]); destruct Hk.
+Qed.
+
+(* ================================================================== *)
+(* honest nodes do not stop during a synchronous suffix with headroom; hence the exact form of (b) *)
+Theorem no_stop_holds : forall R, C06_no_stop R.
+Proof.
+  intros R P pay HP (_ & _ & Hf) s Hr (Hd & Hs) r k Hrr Hk.
+  assert (Hdk : 0 <= dview s k).
+  { destruct (preach_LI P s Hr k) as [(_ & _ & H0 & _) _]. exact H0. }
+  pose proof (Hd k Hk) as Hdk2.
+  assert (H1 : forall k', honestb P k' = true -> dview s k' <= U64 - p_first P - Z.of_nat R - 3)
+    by (intros k' Hk'; specialize (Hd k' Hk'); lia).
+  assert (H2 : forall m, In m (g_soup s) -> msg_view (m_msg m) <= U64 - Z.of_nat R - 2)
+    by (intros m Hin; specialize (Hs m Hin); lia).
+  exact (no_stop_rounds P HP pay Hf R s _ _ Hr H1 H2 ltac:(lia) ltac:(lia) ltac:(lia) ltac:(lia) r Hrr k Hk).
+Qed.
+
+Theorem catch_up_holds : C06_catch_up 3.
+Proof.
+  intros P pay HP He s Hr Hh h k Hhh Hk Huph Hupk.
+  pose proof (no_stop_holds 3 P pay HP He s Hr Hh) as Hns.
+  destruct He as (_ & _ & Hf). destruct Hh as (Hd & _).
+  change (sync_rounds P pay 3 s) with (sync_round P pay (sync_round P pay (sync_round P pay s))) in *.
+  apply (catch_up_three_rounds P HP pay s h k Hr); try assumption.
+  - intros k' Hk'. split.
+    + exact (Hns 1%nat k' ltac:(lia) Hk').
+    + exact (Hns 2%nat k' ltac:(lia) Hk').
+  - intros k' Hk'. specialize (Hd k' Hk'). change (Z.of_nat 3 + 2) with 5 in Hd. lia.
+Qed.
+
+Lemma ex_headroom : headroom ex_P (ginit ex_P) 5 /\ env_ok ex_P ex_pay /\
+  (forall k, honestb ex_P k = true -> up (ginit ex_P) k).
+Proof.
+  split; [split|split; [exact ex_env_ok|]].
+  - intros k Hk. apply ex_P_hon in Hk. repeat (destruct Hk as [<-|Hk]; [vm_compute; reflexivity|]). destruct Hk.
+  - intros m Hin.
+    assert (Hb : forallb (fun m => msg_view (m_msg m) + 5 <? U64) (g_soup (ginit ex_P)) = true) by (vm_compute; reflexivity).
+    apply Z.ltb_lt. exact (Forall_forallb _ _ Hb m Hin).
+  - intros k Hk. apply ex_P_hon in Hk. repeat (destruct Hk as [<-|Hk]; [vm_compute; reflexivity|]). destruct Hk.
 Qed.
